@@ -2,7 +2,7 @@
 (* Norm.tla explored exhaustively, exporting a deterministic 1-in-XSelMod selection of the completed derivations (the    *)
 (* invariants are checked on all of them): the structure universe at MaxBody = 5 has 7.4e5 members, more than the       *)
 (* replay harness can hold; the selector is a position-weighted hash of the line kinds, independent of any seed.        *)
-EXTENDS Norm, Json
+EXTENDS NormEngine, Json
 CONSTANT XSelMod
 KCode(k) == CASE k = "stmt" -> 3 [] k = "stmt2" -> 5 [] k = "ctrl" -> 7 [] k = "ctrl2" -> 11 [] k = "decl" -> 13 [] k = "lbrace" -> 17
               [] k = "rbrace" -> 19 [] k = "empty" -> 23 [] OTHER -> 29
